@@ -64,7 +64,8 @@ Definition write_fcall (msize : N) (live : bool) (f : fcall) : bytes * write_res
 Inductive read_out :=
 | RMsg (f : fcall)
 | ROverflow (k : N)
-| RErr (e : list N).    (* E_EOF / E_UEOF (stream ended), E_BADSIZE, or a decode error class *)
+| RErr (e : list N)     (* E_EOF / E_UEOF (stream ended), E_BADSIZE, or a decode error class *)
+| RPanic.               (* the Go code would panic (unreachable: Properties/C03.v) *)
 
 (* overwrite the front of the reused read buffer with the bytes just read *)
 Definition fill (buf : bytes) (body : bytes) : bytes := body ++ drop (len body) buf.
@@ -74,7 +75,7 @@ Definition fill (buf : bytes) (body : bytes) : bytes := body ++ drop (len body) 
 Definition read_fcall (msize : N) (rdbuf : bytes) (s : bytes) : read_out * bytes * bytes :=
   match rd 4 s with
   | Err e => (RErr e, rdbuf, [])
-  | Panic | Hang => (RErr [99], rdbuf, [])
+  | Panic | Hang => (RPanic, rdbuf, [])
   | Ok (hdr, s1) =>
       let L := unle hdr in
       if L <? 4 then (RErr E_BADSIZE, rdbuf, s1)
@@ -83,7 +84,7 @@ Definition read_fcall (msize : N) (rdbuf : bytes) (s : bytes) : read_out * bytes
         let want := N.min mbody msize in          (* p = p[:mbody] when mbody < len(p) *)
         match rd want s1 with
         | Err e => (RErr e, fill rdbuf s1, [])    (* io.ReadFull failed: partial bytes landed in the buffer *)
-        | Panic | Hang => (RErr [99], rdbuf, [])
+        | Panic | Hang => (RPanic, rdbuf, [])
         | Ok (body, s2) =>
             let buf' := fill rdbuf body in
             if msize <? mbody then
@@ -100,8 +101,7 @@ Definition read_fcall (msize : N) (rdbuf : bytes) (s : bytes) : read_out * bytes
                         | TOverflow k => (ROverflow k, buf', s2)
                         end
               | Err e => (RErr e, buf', s2)
-              | Panic => (RErr [99], buf', s2)
-              | Hang => (RErr [98], buf', s2)
+              | Panic | Hang => (RPanic, buf', s2)
               end
         end
   end.
